@@ -546,6 +546,9 @@ def check(prop):
         samples=samples[:3], **extra))
     rep.assumptions = ["fresh bytes come from a reference build of the same binary on a pristine tree (their correctness is C01's business)",
                        "for failing runs only the verdict and the set of paths that may be touched are claimed"]
+    if prop in ("C06", "C07", "C09"):
+        from cli_engine import cli_layer
+        cli_layer(rep, prop, workdir(prop + "-cli"))
     rep.finish()
 
 
